@@ -8,7 +8,7 @@ import (
 	"github.com/osrg/gobgp/v4/internal/pkg/table"
 )
 
-const simNPol = 6
+const simNPol = 7
 
 // simPolicy returns the catalogue entry k as API objects (nil = no policy).
 func simPolicy(k int, name string) ([]*api.DefinedSet, *api.Policy) {
@@ -34,6 +34,9 @@ func simPolicy(k int, name string) ([]*api.DefinedSet, *api.Policy) {
 		st.Actions.RouteAction = api.RouteAction_ROUTE_ACTION_ACCEPT
 	case 5: // add community
 		st.Actions.Community = &api.CommunityAction{Type: api.CommunityAction_TYPE_ADD, Communities: []string{"65000:99"}}
+		st.Actions.RouteAction = api.RouteAction_ROUTE_ACTION_ACCEPT
+	case 6: // remove community 65000:77 (the first of the two that route variant 1 carries)
+		st.Actions.Community = &api.CommunityAction{Type: api.CommunityAction_TYPE_REMOVE, Communities: []string{"^65000:77$"}}
 		st.Actions.RouteAction = api.RouteAction_ROUTE_ACTION_ACCEPT
 	}
 	return sets, &api.Policy{Name: name, Statements: []*api.Statement{st}}
